@@ -51,9 +51,22 @@ pub fn drawn_priorities() -> Vec<u32> {
     PRIO.with(|p| p.borrow().drawn.clone())
 }
 
+/// Routes this thread's priority draws to `hook_source`.  The `treapsim_plain` package compiles the
+/// same sources against rlib_treap as shipped (its `verif` feature off): there is no hook then, the
+/// library draws from its own generator and only ManualInsert priorities are controlled.
+#[cfg(feature = "hook")]
+pub fn install_hook() {
+    rlib_treap::verif::set_priority_source(Some(hook_source));
+}
+#[cfg(not(feature = "hook"))]
+pub fn install_hook() {}
+
 /// True iff the hook in /repo is present and effective on this thread.
 pub fn hook_active() -> bool {
-    rlib_treap::verif::set_priority_source(Some(hook_source));
+    if !cfg!(feature = "hook") {
+        return false;
+    }
+    install_hook();
     set_priorities(vec![0xDEAD_BEEF, 0x0BAD_CAFE]);
     let a = TreapNode::new(0u8).priority;
     let b = Treap::<Unit>::from_item(Unit).root.map(|n| n.priority);
